@@ -20,6 +20,8 @@ func init() {
 			"Decides these necessary conditions; does not decide goroutine counts at run time or re-entrancy deadlocks.",
 		Run: runC16,
 		Mutants: []Mutant{
+			{Name: "close-waits-for-write-lock", File: "internal/stream/stream_processor.go", Rule: "R-C16-G16",
+				Old: "\t// 关闭 writer\n", New: "\tps.writeLock.Lock()\n\tdefer ps.writeLock.Unlock()\n\t// 关闭 writer\n"},
 			{Name: "started-before-context", File: "internal/client/tunnel/tunnel.go", Rule: "R-C16-4",
 				Old: "\tt.SetCtx(t.manager.Ctx(), t.onClose)\n\n\t// 更新状态\n\tif !t.state.CompareAndSwap(int32(TunnelStateConnecting), int32(TunnelStateConnected)) {\n\t\treturn coreerrors.New(coreerrors.CodeInvalidState, \"invalid state transition\")\n\t}\n", New: "\t// 更新状态\n\tif !t.state.CompareAndSwap(int32(TunnelStateConnecting), int32(TunnelStateConnected)) {\n\t\treturn coreerrors.New(coreerrors.CodeInvalidState, \"invalid state transition\")\n\t}\n\tt.SetCtx(t.manager.Ctx(), t.onClose)\n"},
 			{Name: "dispose-latch-removed", File: "internal/core/dispose/dispose.go", Rule: "R-C16-1",
